@@ -139,6 +139,18 @@ CLAIMED = {
             'lemma, <= 3 (thorough 8) in the drain lemma, <= 2 (3) pending datagrams, scenario of 5 (7) ticks. Outside: starvation by an '
             'application that saturates the queue forever.',
             'DESIGN.md §6 C05'),
+    'C07': ('One resolution step of the real _handle_ack_bits from an arbitrary pending table (symbolic ring offsets over the whole '
+            'half ring, ack_bits, send times, clock and message timeout) proves: every pending datagram is resolved at most once; '
+            'callback(True) exactly for the datagrams named by ack/ack_bits (so forged or stale offsets never acknowledge); '
+            'callback(False) only when the message timeout has elapsed; acked+timeouts counts each resolution once. User-callback '
+            'counting is proven on the real send/_build_packet/_handle_ack/_handle_timeout for unretried sends (the callback lives in '
+            'exactly one place and fires once), for guaranteed sends carried by several datagrams because the round trip exceeds the '
+            'resend interval (every ack/timeout/pending combination: exactly once, True), and for fragmented sends (once, after all '
+            'fragments are resolved). That the peer accepted what it acknowledged rests on C01 (headers authenticated) and C08 (ack '
+            'fields name exactly the received datagrams).',
+            'Trusted: sx engine, exact-real clock. Bounds: <= 2 (thorough 3) pending datagrams in the step lemma, 2..3 (4) carrying '
+            'datagrams, <= 2 (3) fragments. BEST_EFFORT callbacks are excluded by the statement.',
+            'DESIGN.md §6 C07'),
 }
 
 NOT_YET = 'check not built yet in this round (planned: see DESIGN.md §6); not claimed'
